@@ -129,14 +129,12 @@ def predicate_classes(prog: Program, name: str):
                     subj, cl = c[2]
                     if T.contains(subj, lambda s: T.is_call_to(s, f"{C.INSP}.origin")):
                         via_origin = True
-                    cl_items = cl[1] if cl[0] == "tuple" else (cl,)
+                    cl_items = P.flatten_display(prog, cl) or (cl,)
                     for x in cl_items:
                         rn = T.refname(x)
-                        if rn and rn.startswith(C.INSP + "."):
-                            const = P.module_term(prog, prog.module(C.INSP), rn.rsplit(".", 1)[1])
-                            for y in const[1] if const[0] == "tuple" else ():
-                                if T.refname(y):
-                                    classes.append(T.refname(y))
+                        inner = P.flatten_display(prog, x) if rn and rn.startswith("typelib.") else None
+                        if inner is not None:
+                            classes.extend(T.refname(y) for y in inner if T.refname(y))
                         elif rn:
                             classes.append(rn)
             for s in T.walk(tm):
